@@ -86,7 +86,7 @@ def run(tier, seed):
     if err:
         res.broken.append(("model driver build", err))
         drv = NO_MODEL
-    names = (st.get("modules", {}).get("Avx512Mat", {}) or {}).get("names", [])
+    names = (st.get("modules", {}).get("Avx512Mat", {}) or {}).get("names", []) + (st.get("modules", {}).get("Avx512Mat", {}) or {}).get("untranslated", [])
     T = kernel_table()
     missing = [k for k in T if k not in names]
     if missing:
